@@ -33,7 +33,9 @@ CLAIMED = {
         "C13 window theorems (every buffer cell is defined by the crop) and the C08 block-loop theorem; object purity "
         "(patterns, matchers, batch entry points) by differential histories. For the composed pipeline model (log scaling -> "
         "correlation map -> evaluation kernels) the locality of the per-crop function is itself proved, so the history "
-        "theorems hold for it with no hypothesis left (fast_history_spec / full_history_spec).",
+        "theorems hold for it with no hypothesis left (fast_history_spec / full_history_spec). Frame conditions: a call "
+        "writes only the output rows of its own peaks; every other row of caller-supplied output arrays is left as it was "
+        "(runStN_frame, processFrame_frame).",
         "Lean kernel + standard axioms; translator; purity of pattern/matcher objects is exercised by the oracle only "
         "(incl. patterns whose parameters are changed after use, reuse across related shapes).",
         "Lean 4 proof (state-independence + induction over history) + differential histories",
@@ -118,7 +120,11 @@ CLAIMED = {
         "translated from the source on every run (loops -> sums / running minima) and the model's refinement equals the "
         "generated one, its squared elevation the square of the generated one (abstract sqrt); the convolution theorem on "
         "ZMod H x ZMod W: the model's direct circular sum IS the inverse 2-D DFT of the product of the DFTs read at the "
-        "ifftshift index, for every size. ASSUMED: rfft2 / irfft2 compute those transforms (Hermitian-packed, rounded) - "
+        "ifftshift index, for every size; the half-spectrum route the code takes (rfft2 -> product -> irfft2 with the frame's "
+        "shape) is proved equal to that full-spectrum route for real inputs of every shape, odd and even (irfft2_mul_rfft2, "
+        "corr_is_rfft_route), and the default output length of irfft is proved wrong for odd sizes (half_spectrum_ambiguous). "
+        "Defect D17 (log argument x-(min-1) instead of x-min+1, differing in float32) was found here and repaired. "
+        "ASSUMED: rfft2 / irfft2 compute those transforms up to rounding - "
         "the real maps are compared with the model's exact direct sum; real kernels compared stage by stage and the composed "
         "model end to end with the implementation.",
         "Lean kernel + standard axioms; translator; A-FFT, A-FLOAT (float32 kernels vs exact arithmetic within stated "
@@ -133,8 +139,11 @@ CLAIMED = {
         "cut-out / crop index safety; END TO END on the composed pipeline model (crop -> log -> correlation -> kernels -> "
         "re-anchoring -> block loop, both pipelines): for every frame, mask, peak, crop size and buffer count every output "
         "entry is filled with the result of its own peak, the centre lies in the window, the height is the maximum of the "
-        "window's correlation map attained at the centre, the refined position is within 2 px. Finiteness of FFT/log "
-        "themselves is assumed (A-FLOAT).",
+        "window's correlation map attained at the centre, the refined position is within 2 px; the elevation is finite for "
+        "every map with >= 4 rows or columns and for every peak (elevation_finite_of_four_rows) and the 2x2 map is the "
+        "machine-checked counterexample. Finiteness of FFT/log themselves is assumed (A-FLOAT). Known finding D13 (NaN "
+        "refined position from a float32 cancellation in the centre-of-mass total on maps with a large pedestal) is "
+        "classified by cause and reported as KNOWN-FINDING.",
         "Lean kernel + standard axioms; translator; A-FLOAT; numba execution modes (JIT / bounds-checked / interpreter) are "
         "exercised by the harness, not modelled.",
         "Lean 4 proof on source-generated definitions + oracle in three numba execution modes",
@@ -148,7 +157,9 @@ CLAIMED = {
         "method (windows inside), offset invariance of the full-frame method (all peaks) and of the crop-based method "
         "(windows inside), and transposition equivariance of evaluation kernels, correlation map and crop-based pipeline "
         "for maps with a unique maximiser (tie counterexample machine-checked). Float32 rounding under cyclic shifts is "
-        "oracle-only.",
+        "oracle-only; float32 ties between near-equal maxima are decided with an independent float64 reference map. Known "
+        "finding D15 (upsampled refinement maximises a half-spectrum objective that is not transposition-symmetric) is "
+        "classified by re-implementing that objective and reported as KNOWN-FINDING.",
         "Lean kernel + standard axioms; translator; A-FFT / A-FLOAT for the paired-run tolerances.",
         "Lean 4 proof (exact arithmetic, modular index algebra) + paired differential runs",
         "DESIGN.md §7 C14"),
@@ -166,9 +177,13 @@ CLAIMED = {
         "shape//2; ifftshift centres the mask on the evaluated pixel; the upsampling centre ceil(n/2) undoes that shift); "
         "on the circular frame (any finite abelian group of positions) symmetric mask x symmetric data gives a map "
         "symmetric about the disk, the correlation with a translate of the mask itself is maximal at the true shift, and the "
-        "centre of mass of a point-symmetric (2r+1)^2 neighbourhood is its centre (refined = centre exactly). NOT proved: "
-        "uniqueness of the maximum for non-matching templates, the 0.01 px and 1.5/upsample float bounds (oracle). Known "
-        "finding D15.",
+        "centre of mass of a point-symmetric (2r+1)^2 neighbourhood is its centre (refined = centre exactly). End to end for "
+        "hard-edged flat disks: for every symmetric sign-matched template (>0 on the disk, <=0 off it: circular, radial "
+        "gradient, background subtraction, user templates of that kind) the model's correlation map (= the group correlation "
+        "on ZMod H x ZMod W, corrMap_eq_gcorr) has its unique strict maximum on the disk centre and both composed pipelines "
+        "return centre and refined position exactly (flat_disk_exact, fastPeak_/fullPeak_flat_disk_exact); instances are run on "
+        "the implementation. NOT proved: the same for the library's antialiased disks with non-matching masks, the 0.01 px and "
+        "1.5/upsample float bounds (oracle). Known finding D15.",
         "Lean kernel + standard axioms (Mathlib finite sums over groups); translator; A-FFT; the quantitative bounds are "
         "decided by the oracle search only.",
         "Lean 4 proof (partial: group-sum reindexing, reflection of finite sums) + synthetic-disk oracle",
@@ -186,7 +201,10 @@ CLAIMED = {
         "pixel-centred feature is read with the mask centre on that pixel for even, odd and non-square shapes; on the "
         "circular frame separated disks give centre values linear in brightness with one common slope (brightness order = "
         "height order); the map of get_correlation is the inverse 2-D DFT of the product of the DFTs at the ifftshift index "
-        "for every shape (convolution theorem). peak_local_max and strict local maximality for non-matching templates are oracle-only.",
+        "for every shape (convolution theorem); for sign-matched templates and disks separated by more than twice the "
+        "template support every disk centre is a strict maximum of its neighbourhood and the background between disks is "
+        "no higher than any centre (separated_disks_local, separated_background, separated_disk_is_strict_peak). "
+        "peak_local_max itself and strict local maximality for non-matching templates are oracle-only.",
         "Lean kernel + standard axioms; translator; A-FFT, A-EXT (skimage).",
         "Lean 4 proof (partial) + exact small-shape correspondence + disk-field oracle",
         "DESIGN.md §7 C07"),
